@@ -114,3 +114,30 @@ def run_template(prog):
                      "the template body is re-scanned once per template parameter: text substituted for an earlier parameter is "
                      "scanned again for later parameter names (variable capture), so indirection through a template changes meaning")
     return res
+
+
+def run_vars(prog):
+    """R-VARS-TRANSITIVE: `$name` is resolved lazily and transitively at its use: the value found in the defvar table
+    is itself resolved again (a variable may name another variable, in any order of definition)."""
+    from kq.analysis import backward_slice
+    from kq.core import callee_name
+    res = RuleResult("R-VARS-TRANSITIVE", "a variable that names another variable resolves to that variable's value", floor=3)
+    for nm in ("atom", "list", "span_list"):
+        f = prog.fn("kanata_parser::cfg::sexpr::SExpr::" + nm)
+        res.fn(f)
+        ok = False
+        for bi, t in f.calls():
+            if callee_name(t) == f.norm and t["args"]:
+                _, cals, _ = backward_slice(f, t["args"][0])
+                from kq.core import Resolver
+                r = Resolver(f).root(t["args"][1]) if len(t["args"]) > 1 else ("?",)
+                with_table = r[0] == "agg" and r[1][2].get("v") == "Some" or r[0] == "param"
+                if any(c.endswith("HashMap::get") for c in cals) and with_table:
+                    ok = True
+        res.inst("resolve/" + nm, looked_up_value_is_resolved_again=ok)
+        res.oblige(ok)
+        if not ok:
+            res.viol("resolve/" + nm, f.loc,
+                     "SExpr::%s no longer resolves the value it found in the defvar table again: `(defvar a $b b 5)` stops working "
+                     "when the alias is defined before its target" % nm)
+    return res
